@@ -8,5 +8,5 @@ mkdir -p "$OUT/kmodel_obj"
 coqc -Q .. Knut Extract.v >/dev/null
 cp kmodel_core.ml kmodel_core.mli drv/*.ml "$OUT/kmodel_obj/"
 cd "$OUT/kmodel_obj"
-DRV=$(ls drv_*.ml | grep -v drv_util.ml | sort | tr '\n' ' ')
+DRV="drv_c11.ml drv_journal.ml $(ls drv_*.ml | grep -v -e drv_util.ml -e drv_c11.ml -e drv_journal.ml | sort | tr "\n" " ")"
 ocamlfind ocamlopt -w -a -package str -linkpkg kmodel_core.mli kmodel_core.ml drv_util.ml $DRV kmodel_main.ml -o ../kmodel
